@@ -144,7 +144,7 @@ func (w *World) pos(p token.Pos) string {
 		return "-"
 	}
 	q := w.Fset.Position(p)
-	rel, err := filepath.Rel("/repo", q.Filename)
+	rel, err := filepath.Rel(repoDir, q.Filename)
 	if err != nil {
 		rel = q.Filename
 	}
